@@ -194,7 +194,7 @@ func checkC07(c *Ctx, r *Report) {
 
 	abmfRules(c, r, "C07.R1", "C07.R2", "C07.R3", "C07.R4", "C07.R5", "C07.R6")
 	abmfWidthRules(c, r, "C07.R7")
-	r.shareFrom(c, checkC17, map[string]string{"C17.R2": "C07.R8", "C17.R8": "C07.R8"})
+	r.shareFrom(c, checkC17, map[string]string{"C17.R1": "C07.R8", "C17.R2": "C07.R8", "C17.R8": "C07.R8", "C17.R9": "C07.R8"})
 }
 
 // abmfRules runs the account-server rules under the given rule ids ("" = skip).
@@ -427,16 +427,11 @@ func abmfRules(c *Ctx, r *Report, R1, R2, R3, R4, R5, R6 string) {
 				if st.Field(i).Name() != fld[0] {
 					continue
 				}
-				tag := reflect.StructTag(st.Tag(i)).Get("avp")
-				omit := false
-				for _, opt := range strings.Split(tag, ",")[1:] {
-					if strings.TrimSpace(opt) == "omitempty" {
-						omit = true
-					}
-				}
+				tag := st.Tag(i)
+				_, omit := parseAvpTagFull(reflect.StructTag(tag))
 				_, isPtr := st.Field(i).Type().Underlying().(*types.Pointer)
 				r.check(!omit || isPtr, R3, key+"|echo "+fld[0]+" on the wire", posOf(c, m.marshal), "the member is marshalled for every value (`"+tag+"`)",
-					"the answer's "+fld[0]+" is tagged `avp:\""+tag+"\"`: go-diameter omits the AVP when the member holds its zero value, so the answer to a request whose "+fld[0]+" is 0 / empty carries no such AVP - the identifier is not echoed")
+					"the answer's "+fld[0]+" is tagged `"+tag+"`, which go-diameter's parseAvpTag takes for omitempty (explicitly, or because the tag carries more than the avp key): it omits the AVP when the member holds its zero value, so the answer to a request whose "+fld[0]+" is 0 / empty carries no such AVP - the identifier is not echoed")
 			}
 		}
 	}
